@@ -12,7 +12,7 @@ import (
 )
 
 var c02Alphabet = map[string][]string{
-	ClsStr:   {"a", "", "Zoë 日本 😀", "with \"quotes\" \\ and \n newline <>& \u0001", "not@an email", "12345", "US$5 $x", "true", strings.Repeat("long value ", 120), "REDACTED_0123456789abcdef", customReplacement + "_x", "REDACTED",
+	ClsStr: {"a", "", "Zoë 日本 😀", "with \"quotes\" \\ and \n newline <>& \u0001", "not@an email", "12345", "US$5 $x", "true", strings.Repeat("long value ", 120), "REDACTED_0123456789abcdef", customReplacement + "_x", "REDACTED",
 		"jo\u212ae@example.com", "acce\u017f\u017f@example.com", "Bob <bob@example.com>", "mailto:bob@example.com", " bob@example.com", "bob@example.com\n", "Zoe\u0308", "Zo\u00eb", "10.1.2.3:27017"},
 	ClsEmail: {"a.b+c@sub.domain.org", "x@y.co", "USER_1@EXAMPLE.COM", strings.Repeat("l", 60) + "@" + strings.Repeat("d", 40) + ".example.org"},
 	ClsDate:  {"2024-01-01T00:00:00Z", "1999-12-31T23:59:59.999+05:30", "not a date", ""},
